@@ -315,7 +315,9 @@ DimenUnits(t, p, R, F, inf, dev, cv, f, neg, e) ==
                                                          FALSE, neg, e, 0)
                              ELSE IF sp.ok
                              THEN AttachSign(cv, FALSE, neg, OptSpace(t, sp.p), e, 0)    \* goto done
-                             ELSE SUndef(q)        \* 459 unknown unit: outside the generated domain
+                             ELSE \* 459 "Illegal unit of measure (pt inserted)": nothing is consumed but the
+                                  \* blanks the keyword scans passed over; the value is taken in points
+                                  AttachFraction(t, tr.p, cv, f, FALSE, neg, e + 1, 0)
 
 (* 452 Scan decimal fraction; p is the position after the point *)
 RECURSIVE FracDigs(_, _, _)
